@@ -72,6 +72,9 @@ def judge_class(rec, o):
         if o.get("error", "").startswith("CRASH"):
             out.append((f"well-formedness:crash:{head(rec['t'])}", {"error": o["error"], "title": o.get("title")}))
         return out
+    if "crash" in o:
+        out.append((f"classification-crash:{head(rec['t'])}", {"crash": o["crash"]}))
+        return out
     if not o["same"]:
         raise lib.Machinery(f"the parsed type is not the enumerated one: {rec['t']} vs {o.get('proj')} ({o['text']})")
     for f, want in (("copyable", rec["cop"]), ("droppable", rec["drop"]), ("hugr_bound", rec["hugrcop"])):
@@ -82,8 +85,9 @@ def judge_class(rec, o):
     elif o["type_bound"] != rec["hugrcop"]:
         # the statement's "exactly when" fails although the lowering is as specified:
         # only possible through a phantom type argument of a generic struct
-        out.append(("hugr-type-copyable-but-guppy-type-not:phantom-arg-of:" + ",".join(sorted(rec["phantoms"])),
-                    {"observed_copyable": o["type_bound"], "guppy_copyable": rec["cop"]}))
+        for g in sorted(rec["phantoms"]) or ["?"]:
+            out.append(("hugr-type-copyable-but-guppy-type-not:phantom-arg-of:" + g,
+                        {"observed_copyable": o["type_bound"], "guppy_copyable": rec["cop"]}))
     return out
 
 
